@@ -86,19 +86,54 @@ Definition may_throw (d : dtor_record) : bool :=
 
 (* the destructors (with the possibly-throwing callees of their bodies) that are accepted as known: each one is
    a way to reach std::terminate and is reported as a known finding (F17, F18) or argued harmless below *)
-Definition expected_throwing_dtors : list (string * list string) :=
+Definition expected_throwing_dtors : list (string * list string) :=      (* sorted by name *)
   [ ("BitSerializer::Csv::Detail::CCsvWriteObjectScope::~CCsvWriteObjectScope",
        [ "BitSerializer::Csv::Detail::ICsvWriter::NextLine [virtual]" ]);
+    ("BitSerializer::MsgPack::Detail::CMsgPackReadObjectScope::~CMsgPackReadObjectScope",
+       [ "BitSerializer::MsgPack::Detail::CMsgPackReadObjectScope::ResetKey";
+         "BitSerializer::MsgPack::Detail::IMsgPackReader::SkipValue [virtual]" ]);
     (* calls the virtual OnFinishChildScope of the parent scope; its two overriders (array / object read scope)
        only reset a key and increment an index *)
     ("BitSerializer::MsgPack::Detail::CMsgPackScopeBase::~CMsgPackScopeBase",
-       [ "BitSerializer::MsgPack::Detail::CMsgPackScopeBase::OnFinishChildScope [virtual]" ]);
-    ("BitSerializer::MsgPack::Detail::CMsgPackReadObjectScope::~CMsgPackReadObjectScope",
-       [ "BitSerializer::MsgPack::Detail::CMsgPackReadObjectScope::ResetKey";
-         "BitSerializer::MsgPack::Detail::IMsgPackReader::SkipValue [virtual]" ]) ].
+       [ "BitSerializer::MsgPack::Detail::CMsgPackScopeBase::OnFinishChildScope [virtual]" ]) ].
 
 Definition throwing_dtors (l : list dtor_record) : list (string * list string) :=
   map (fun d => (dt_name d, dt_callees d)) (filter may_throw l).
+
+(* functions declared noexcept (other than destructors) that call possibly-throwing code: an exception leaving them is
+   std::terminate just the same.  Names only (their callee lists are in the generated file).  Today's list, judged by
+   hand:
+     defect  CMsgPackStreamReader::CMsgPackStreamReader  reads the first chunk of the stream in a noexcept constructor
+             (F38: a stream with exceptions(badbit) that fails at its first read terminates the process)
+     defect  Required::operator()                          builds a std::string (22 characters, heap) in a noexcept
+             function: allocation failure while reporting a missing field terminates the process (F39)
+     benign  IsEnd / IsFailed / GetEstimatedSize / ToStringView / CVariableKey::operator==: the callee is a libstdc++
+             observer (size, eof, fail, operator basic_string_view) that the translator cannot see to be noexcept
+     benign  ParseSecondFractions, PrintSecondsFractions, LittleEndianToNative, FieldsCountVisitor::*: arithmetic /
+             dependent calls that resolve to non-throwing functions
+     benign  TryTo: the throwing call is inside try { } catch (const std::exception&) (not a catch-all, hence listed) *)
+Definition expected_noexcept_callers : list string :=      (* sorted by name, as the translator emits them *)
+  [ "BitSerializer::Convert::Detail::ParseSecondFractions";
+    "BitSerializer::Convert::Detail::PrintSecondsFractions";
+    "BitSerializer::Convert::Detail::ToStringView";
+    "BitSerializer::Convert::TryTo";
+    "BitSerializer::Convert::Utf::CEncodedStreamReader::IsEnd";
+    "BitSerializer::Csv::Detail::CCsvReadObjectScope::GetEstimatedSize";
+    "BitSerializer::Csv::Detail::CCsvStringReader::IsEnd";
+    "BitSerializer::Detail::CBinaryStreamReader::IsEnd";
+    "BitSerializer::Detail::CBinaryStreamReader::IsFailed";
+    "BitSerializer::FieldsCountVisitor::GetContext";
+    "BitSerializer::FieldsCountVisitor::GetMode";
+    "BitSerializer::FieldsCountVisitor::GetOptions";
+    "BitSerializer::FieldsCountVisitor::IsLoading";
+    "BitSerializer::FieldsCountVisitor::IsSaving";
+    "BitSerializer::Memory::LittleEndianToNative";
+    "BitSerializer::MsgPack::Detail::CMsgPackStreamReader::CMsgPackStreamReader";
+    "BitSerializer::MsgPack::Detail::CMsgPackStringReader::IsEnd";
+    "BitSerializer::MsgPack::Detail::CVariableKey::operator==";
+    "BitSerializer::Required::operator()" ].
+
+Definition noexcept_callers (l : list dtor_record) : list string := map dt_name (filter may_throw l).
 
 (* ------------------------------------------------------------------------------------------------ *)
 (** * 2. Threads: interleaving semantics                                                              *)
